@@ -933,22 +933,28 @@ PROPS = {
     },
     "C13": {
         "property_modules": ["Zlink.Properties.C13"], "lean_modules": ["Zlink.Properties.C13"],
-        "theorems": ["C13.C13_total", "C13.C13_type_names_exact", "C13.C13_field_names_exact"],
+        "theorems": ["C13.C13_total", "C13.C13_type_names_exact", "C13.C13_field_names_exact", "C13.C13_interface_names_complete",
+                     "C13.C13_types_complete", "C13.C13_complete"],
         "run": run_idl, "trusted_base": TB_COMMON,
         "assumptions": [
             "winnow's alt / separated / literal / take_while / multispace0 and str::trim behave as ported in Zlink/Model/Idl.lean (validated by the correspondence run: identical trees / rejections on every explored text)",
-            "PARTIAL: proved so far are totality and the exactness (soundness + longest-match completeness) of the type-name and field-name lexers; the syntactic layer (every grammatical text parses to the denoted tree, nothing else is accepted) "
-            "is decided per explored text by the Lean oracle on the implementation's observation and by model = implementation, not yet by a theorem (C13_complete_statement is kept as the full statement)",
+            "proved (unbounded): totality; exactness (soundness + longest-match completeness) of the type-name and field-name lexers; completeness of the interface-name lexer; C13_complete: every well-formed description "
+            "(any nesting of ?, [], [string], inline structs and enums, any number of members / fields / variants, comments in every slot the description has) is recovered exactly, members in order, from its canonical text",
+            "PARTIAL: not proved, decided per explored text by the Lean oracle on the implementation's observation and by model = implementation: (a) inter-token layout other than the canonical one (random legal whitespace and comment placement is generated by the scenario), "
+            "(b) the soundness direction beyond the lexers - any accepted text is grammatical and nothing of it is ignored (oracle `nothingIgnored`), (c) soundness of the interface-name lexer",
+            "C13_complete carries the side condition noVCI (no inline enum with commented variants): such trees exist only through the constructors, the parser has no slot for these comments; without the condition the statement is false (C13_complete_statement, kept visible)",
             "leniencies deliberately not counted as violations: members without a line break between them; comments at places where the description has no slot (layout, as in the grammar's `_` production)",
         ],
     },
     "C14": {
         "property_modules": ["Zlink.Properties.C14"], "lean_modules": ["Zlink.Properties.C14"],
-        "theorems": ["C14.C14_comment_roundtrip", "C14.C14_commented_variant_counterexample"],
+        "theorems": ["C14.C14_comment_roundtrip", "C14.C14_parse_render", "C14.C14_render_fixpoint", "C14.renderIface_eq_refText",
+                     "C14.C14_commented_variant_counterexample"],
         "run": run_idlrt, "trusted_base": TB_COMMON,
         "assumptions": [
             "core::fmt (write!/writeln!) concatenates as modelled in Zlink/Model/IdlRender.lean (validated: byte-identical text on every explored tree)",
-            "PARTIAL: proved are the comment round trip and the counterexample of the known finding; parse(render t) = t for whole descriptions is checked per explored tree (model and implementation both), C14_statement is kept as the full statement",
+            "proved (unbounded): parse(render a) = a and render(parse(render a)) = render a for every well-formed description without commented enum variants (C14_parse_render, C14_render_fixpoint); the excluded class is exactly the listed finding "
+            "(C14_commented_variant_counterexample proves the model refuses that rendering too); C14_statement is kept as the statement",
             "the GetInterfaceDescription exchange end to end (serialize as string, deserialize, parse) is not yet part of this check",
         ],
     },
